@@ -12,7 +12,11 @@ var c12Tokens = []string{"aa.com", "bb.com"}
 
 // names records are attached to: tokens, direct sub-names (registered or not), one deeper name
 // the last one contains a registrable name ("s1.aa.com") twice (seeded change C12-5: first vs last occurrence)
-var c12Names = []string{"aa.com", "bb.com", "s1.aa.com", "s2.aa.com", "s1.bb.com", "zz.s1.aa.com", "cc.com", "zz.s1.aa.com.s1.aa.com"}
+var c12Names = []string{"aa.com", "bb.com", "s1.aa.com", "s2.aa.com", "s1.bb.com", "zz.s1.aa.com", "cc.com", "zz.s1.aa.com.s1.aa.com", c12LongName}
+
+// a sub-name of aa.com of exactly the maximal length (255 bytes): its trailing-dot form is 256 bytes long
+// (seeded change C12-7: a length guard in front of the place where the dot is stripped)
+var c12LongName = strings.Repeat("l", 63) + "." + strings.Repeat("m", 63) + "." + strings.Repeat("n", 63) + "." + strings.Repeat("o", 56) + ".aa.com"
 
 var aPool = []string{"1.2.3.4", "8.8.8.8", "93.184.216.34", "5.6.7.8", "11.22.33.44"}
 var aaaaPool = []string{"2a01:4f0:1:2::3", "2001:4860:4860::1111", "2a02:6b0::5", "2607:f0d0:1002:51::4"}
